@@ -90,8 +90,10 @@ func (m *MethodEvaluator) errorResolve() error {
 		}
 
 		// the closer of an enclosing one-line block or body belongs to that
-		// body: [3].each { |z| z.undefined } must still see its `}`
-		if nextT.IsTargetIdentifier("}") || nextT.IsEndIdentifier() {
+		// body: [3].each { |z| z.undefined } must still see its `}`, and
+		// (1.undefined) its `)`; without the diagnostic rounds would read on
+		// to the next closer, lines below
+		if nextT.IsTargetIdentifiers([]string{"}", ")", "]", ":"}) || nextT.IsEndIdentifier() {
 			m.parser.Unget()
 			break
 		}
